@@ -396,6 +396,7 @@ impl NHistory {
                     self.violate("C19", format!("a connection response that does not echo the challenge of its own handshake was answered with {}", obs.to_text()));
                 }
                 if is_request && genuine_of.is_none() {
+                    self.violate("C05", format!("a connection request with a modified public field or sealed part (not a token any key holder sealed) was answered with {}", obs.to_text()));
                     self.violate("C17", format!("a connection request with a modified public field or sealed part was answered with {}", obs.to_text()));
                 }
             }
